@@ -391,4 +391,461 @@ theorem transform_ratOk {fuel : Nat} {r : Rules} {use d : Datum} (hr : r.RatOK) 
   transformRules_ratOk fuel _ _ _ _ hr hu h
 
 end Macro
+/-! ## `toStatement` produces `ok` code -/
+
+namespace Xform
+
+/-- the computation does not change the syntax environment -/
+structure XPure {α} (m : XM α) : Prop where
+  env : ∀ s, (m s).2 = s
+
+theorem XPure.pure {α} (a : α) : XPure (pure a : XM α) := ⟨fun _ => rfl⟩
+theorem XPure.fail {α} (e : SErr) : XPure (fail e : XM α) := ⟨fun _ => rfl⟩
+theorem XPure.lift {α} (x : Except SErr α) : XPure (lift x) := ⟨fun _ => rfl⟩
+theorem XPure.need {α} (x : Option α) : XPure (need x) := by
+  cases x
+  · exact XPure.fail _
+  · exact XPure.pure _
+theorem XPure.identOf (d : Datum) : XPure (identOf d) := XPure.lift _
+theorem XPure.expectList (d : Datum) : XPure (expectList d) := XPure.lift _
+theorem XPure.bind {α β} {m : XM α} {f : α → XM β} (hm : XPure m) (hf : ∀ a, XPure (f a)) : XPure (m >>= f) := by
+  refine ⟨fun s => ?_⟩
+  rw [bind_def']
+  have := hm.env s
+  generalize m s = x at this
+  obtain ⟨r, s'⟩ := x
+  simp only at this; subst this
+  cases r with
+  | error e => rfl
+  | ok a => exact (hf a).env _
+theorem XPure.mapM_loop {α β} {f : α → XM β} (hf : ∀ a, XPure (f a)) (l : List α) (acc : List β) :
+    XPure (List.mapM.loop f l acc) := by
+  induction l generalizing acc with
+  | nil => simp only [List.mapM.loop]; exact XPure.pure _
+  | cons a l ih =>
+    simp only [List.mapM.loop]
+    exact XPure.bind (hf a) fun b => ih _
+theorem XPure.mapM {α β} {f : α → XM β} (hf : ∀ a, XPure (f a)) (l : List α) : XPure (l.mapM f) :=
+  XPure.mapM_loop hf l []
+
+syntax "xpure_close" : tactic
+macro_rules
+  | `(tactic| xpure_close) => `(tactic| first
+      | exact XPure.fail _ | exact XPure.pure _ | exact XPure.need _ | exact XPure.identOf _
+      | exact XPure.expectList _ | exact XPure.lift _)
+
+theorem XPure.toFormals (d : Datum) : XPure (toFormals d) := by
+  unfold Xform.toFormals
+  split
+  · simp only; split <;> xpure_close
+  · simp only; split <;> xpure_close
+  · xpure_close
+  · xpure_close
+
+theorem XPure.toLibName (ds : List Datum) : XPure (toLibName ds) := by
+  unfold Xform.toLibName
+  apply XPure.mapM
+  intro d
+  split
+  · xpure_close
+  · split <;> xpure_close
+  · xpure_close
+
+theorem XPure.toExportSpec (d : Datum) : XPure (toExportSpec d) := by
+  unfold Xform.toExportSpec
+  repeat (first | xpure_close | apply XPure.bind | intro _ | split | dsimp only)
+
+theorem XPure.toImportSet (n : Nat) (d : Datum) : XPure (toImportSet n d) := by
+  induction n generalizing d with
+  | zero => rw [Xform.toImportSet]; xpure_close
+  | succ n ih =>
+    rw [Xform.toImportSet]
+    repeat (first | xpure_close | exact ih _ | exact XPure.toLibName _ | apply XPure.bind | apply XPure.mapM | intro _ | split | dsimp only)
+
+/-- forward form for `grind` -/
+theorem XPure.eq {α} {m : XM α} (hm : XPure m) {s r s'} (h : m s = (r, s')) : s' = s := by
+  have := hm.env s; rw [h] at this; exact this
+
+theorem SynEnv.ratOK_define {env : SynEnv} (h : SynEnv.RatOK env) (k : String) {r : Macro.Rules} (hr : r.RatOK) :
+    SynEnv.RatOK (env.define k r) := by
+  cases env with
+  | nil =>
+    intro scope hs kr hkr
+    simp [SynEnv.define] at hs; subst hs
+    simp at hkr; subst hkr; exact hr
+  | cons sc rest =>
+    intro scope hs kr hkr
+    simp only [SynEnv.define, List.mem_cons] at hs
+    rcases hs with rfl | hs
+    · have hsc := h sc (by simp)
+      clear h
+      induction sc with
+      | nil => simp [scopeInsert] at hkr; subst hkr; exact hr
+      | cons p sc ih =>
+        obtain ⟨k', r'⟩ := p
+        simp only [scopeInsert] at hkr
+        split at hkr
+        · rcases List.mem_cons.1 hkr with rfl | hkr
+          · exact hr
+          · exact hsc kr (by simp [hkr])
+        · rcases List.mem_cons.1 hkr with rfl | hkr
+          · exact hsc _ (by simp)
+          · exact ih hkr (fun x hx => hsc x (by simp [hx]))
+    · exact h scope (by simp [hs]) kr hkr
+
+theorem SynEnv.ratOK_get {env : SynEnv} (h : SynEnv.RatOK env) {k : String} {r : Macro.Rules}
+    (hg : env.get? k = some r) : r.RatOK := by
+  induction env with
+  | nil => simp [SynEnv.get?] at hg
+  | cons sc rest ih =>
+    simp only [SynEnv.get?] at hg
+    split at hg
+    · rename_i r' hl
+      cases hg
+      have : (k, r) ∈ sc := by
+        clear h ih
+        induction sc with
+        | nil => simp at hl
+        | cons p sc ih2 =>
+          obtain ⟨k', r'⟩ := p
+          rw [List.lookup_cons] at hl
+          split at hl
+          · rename_i hk; cases hl; simp at hk; subst hk; simp
+          · exact List.mem_cons_of_mem _ (ih2 hl)
+      exact h sc (by simp) _ this
+    · exact ih (fun s hs => h s (by simp [hs])) hg
+
+theorem SynEnv.ratOK_push {env : SynEnv} (h : SynEnv.RatOK env) : SynEnv.RatOK ([] :: env) := by
+  intro sc hs
+  rcases List.mem_cons.1 hs with rfl | hs
+  · simp
+  · exact h sc hs
+
+theorem SynEnv.ratOK_tail {sc} {env : SynEnv} (h : SynEnv.RatOK (sc :: env)) : SynEnv.RatOK env :=
+  fun s hs => h s (by simp [hs])
+
+
+theorem head?_mem {α} {l : List α} {a : α} (h : l.head? = some a) : a ∈ l := by
+  cases l <;> simp at h; subst h; simp
+
+theorem head?_drop_mem {α} {l : List α} {n : Nat} {a : α} (h : (l.drop n).head? = some a) : a ∈ l :=
+  List.mem_of_mem_drop (head?_mem h)
+
+theorem need_eq {α} (x : Option α) (s : SynEnv) :
+    need x s = match x with
+      | some a => (.ok a, s)
+      | none => (.error (.syntax, none), s) := by
+  cases x <;> rfl
+
+theorem mapM_importSet_env {n : Nat} {ds : List Datum} {s r s'}
+    (h : List.mapM (toImportSet n) ds s = (r, s')) : s' = s :=
+  (XPure.mapM (fun d => XPure.toImportSet n d) ds).eq h
+
+theorem mapM_exportSpec_env {ds : List Datum} {s r s'}
+    (h : List.mapM toExportSpec ds s = (r, s')) : s' = s :=
+  (XPure.mapM (fun d => XPure.toExportSpec d) ds).eq h
+
+theorem toFormals_env {d : Datum} {s r s'} (h : toFormals d s = (r, s')) : s' = s :=
+  (XPure.toFormals d).eq h
+
+theorem toLibName_env {ds : List Datum} {s r s'} (h : toLibName ds s = (r, s')) : s' = s :=
+  (XPure.toLibName ds).eq h
+
+theorem popProper_ratOk' {d : Datum} {v} (h : Macro.popProper d = .ok (some v)) (hd : d.ratOk = true) :
+    v.1.ratOk = true ∧ v.2.ratOk = true := by
+  obtain ⟨a, r⟩ := v; exact Macro.popProper_ratOk h hd
+
+theorem ratOk_of_head? {l : List Datum} (hl : ∀ a ∈ l, a.ratOk = true) {a : Datum} (h : l.head? = some a) :
+    a.ratOk = true := hl a (head?_mem h)
+
+theorem ratOk_of_drop_head? {l : List Datum} (hl : ∀ a ∈ l, a.ratOk = true) {n : Nat} {a : Datum}
+    (h : (l.drop n).head? = some a) : a.ratOk = true := hl a (head?_drop_mem h)
+
+theorem ratOk_of_drop {l : List Datum} (hl : ∀ a ∈ l, a.ratOk = true) (n : Nat) :
+    ∀ a ∈ l.drop n, a.ratOk = true := fun a ha => hl a (List.mem_of_mem_drop ha)
+
+theorem transform_fw {fuel : Nat} {r : Macro.Rules} {use a : Datum} {s s1 : SynEnv}
+    (h : (Macro.transform fuel r use, s) = ((.ok a : Except SErr Datum), s1)) (hr : r.RatOK)
+    (hu : use.ratOk = true) : a.ratOk = true ∧ s1 = s := by
+  simp only [Prod.mk.injEq] at h
+  exact ⟨Macro.transform_ratOk hr hu h.1, h.2.symm⟩
+
+theorem need_fw {α} {x : Option α} {s : SynEnv} {r s'} (h : need x s = (r, s')) :
+    s' = s ∧ ∀ a, r = .ok a → x = some a := by
+  cases x <;> simp only [need, fail, pure_def', Prod.mk.injEq] at h <;> obtain ⟨rfl, rfl⟩ := h <;> simp
+
+structure OKAt (n : Nat) : Prop where
+  stmt : ∀ d s r s', toStatement n d s = (r, s') → d.ratOk = true → SynEnv.RatOK s →
+    SynEnv.RatOK s' ∧ ∀ st, r = .ok st → st.ok = true
+  expr : ∀ d s r s', toExpr n d s = (r, s') → d.ratOk = true → SynEnv.RatOK s →
+    SynEnv.RatOK s' ∧ ∀ e, r = .ok e → e.ok = true
+  call : ∀ first args loc s r s', toCall n first args loc s = (r, s') → first.ratOk = true →
+    (∀ a ∈ args, a.ratOk = true) → SynEnv.RatOK s → SynEnv.RatOK s' ∧ ∀ e, r = .ok e → e.ok = true
+  exprs : ∀ ds s r s', toExprs n ds s = (r, s') → (∀ a ∈ ds, a.ratOk = true) → SynEnv.RatOK s →
+    SynEnv.RatOK s' ∧ ∀ es, r = .ok es → Expr.okList es = true
+  defn : ∀ args s r s', toDefinition n args s = (r, s') → (∀ a ∈ args, a.ratOk = true) → SynEnv.RatOK s →
+    SynEnv.RatOK s' ∧ ∀ p, r = .ok p → p.2.ok = true
+  lam : ∀ args s r s', toLambda n args s = (r, s') → (∀ a ∈ args, a.ratOk = true) → SynEnv.RatOK s →
+    SynEnv.RatOK s' ∧ ∀ l, r = .ok l → l.ok = true
+  body : ∀ ds defs exprs s r s', toBody n ds defs exprs s = (r, s') → (∀ a ∈ ds, a.ratOk = true) →
+    Def.okList defs = true → Expr.okList exprs = true → SynEnv.RatOK s →
+    SynEnv.RatOK s' ∧ ∀ p, r = .ok p → Def.okList p.1 = true ∧ Expr.okList p.2 = true ∧ p.2.isEmpty = false
+  lib : ∀ args loc s r s', toLibrary n args loc s = (r, s') → (∀ a ∈ args, a.ratOk = true) → SynEnv.RatOK s →
+    SynEnv.RatOK s' ∧ ∀ st, r = .ok st → st.ok = true
+  decls : ∀ ds s r s', toLibDecls n ds s = (r, s') → (∀ a ∈ ds, a.ratOk = true) → SynEnv.RatOK s →
+    SynEnv.RatOK s' ∧ ∀ xs, r = .ok xs → LibDecl.okList xs = true
+  decl : ∀ d s r s', toLibDecl n d s = (r, s') → d.ratOk = true → SynEnv.RatOK s →
+    SynEnv.RatOK s' ∧ ∀ x, r = .ok x → x.ok = true
+  stmts : ∀ ds s r s', toStatements n ds s = (r, s') → (∀ a ∈ ds, a.ratOk = true) → SynEnv.RatOK s →
+    SynEnv.RatOK s' ∧ ∀ xs, r = .ok xs → Statement.okList xs = true
+
+
+theorem OKAt.stmt' {n} (ih : OKAt n) {d s r s'} (h : toStatement n d s = (r, s')) (hd : d.ratOk = true)
+    (hs : SynEnv.RatOK s) : SynEnv.RatOK s' ∧ ∀ st, r = .ok st → st.ok = true := ih.stmt _ _ _ _ h hd hs
+theorem OKAt.expr' {n} (ih : OKAt n) {d s r s'} (h : toExpr n d s = (r, s')) (hd : d.ratOk = true)
+    (hs : SynEnv.RatOK s) : SynEnv.RatOK s' ∧ ∀ e, r = .ok e → e.ok = true := ih.expr _ _ _ _ h hd hs
+theorem OKAt.call' {n} (ih : OKAt n) {first args loc s r s'} (h : toCall n first args loc s = (r, s'))
+    (hf : first.ratOk = true) (ha : ∀ a ∈ args, a.ratOk = true)
+    (hs : SynEnv.RatOK s) : SynEnv.RatOK s' ∧ ∀ e, r = .ok e → e.ok = true := ih.call _ _ _ _ _ _ h hf ha hs
+theorem OKAt.defn' {n} (ih : OKAt n) {args s r s'} (h : toDefinition n args s = (r, s'))
+    (ha : ∀ a ∈ args, a.ratOk = true)
+    (hs : SynEnv.RatOK s) : SynEnv.RatOK s' ∧ ∀ p, r = .ok p → p.2.ok = true := ih.defn _ _ _ _ h ha hs
+theorem OKAt.lam' {n} (ih : OKAt n) {args s r s'} (h : toLambda n args s = (r, s'))
+    (ha : ∀ a ∈ args, a.ratOk = true)
+    (hs : SynEnv.RatOK s) : SynEnv.RatOK s' ∧ ∀ l, r = .ok l → l.ok = true := ih.lam _ _ _ _ h ha hs
+theorem OKAt.lib' {n} (ih : OKAt n) {args loc s r s'} (h : toLibrary n args loc s = (r, s'))
+    (ha : ∀ a ∈ args, a.ratOk = true)
+    (hs : SynEnv.RatOK s) : SynEnv.RatOK s' ∧ ∀ st, r = .ok st → st.ok = true := ih.lib _ _ _ _ _ h ha hs
+
+
+theorem OKAt.exprs' {n} (ih : OKAt n) {ds s r s'} (h : toExprs n ds s = (r, s'))
+    (ha : ∀ a ∈ ds, a.ratOk = true)
+    (hs : SynEnv.RatOK s) : SynEnv.RatOK s' ∧ ∀ es, r = .ok es → Expr.okList es = true := ih.exprs _ _ _ _ h ha hs
+theorem OKAt.body' {n} (ih : OKAt n) {ds defs exprs s r s'} (h : toBody n ds defs exprs s = (r, s'))
+    (ha : ∀ a ∈ ds, a.ratOk = true) (hd : Def.okList defs = true) (he : Expr.okList exprs = true)
+    (hs : SynEnv.RatOK s) : SynEnv.RatOK s' ∧
+      ∀ p, r = .ok p → Def.okList p.1 = true ∧ Expr.okList p.2 = true ∧ p.2.isEmpty = false :=
+  ih.body _ _ _ _ _ _ h ha hd he hs
+theorem OKAt.decls' {n} (ih : OKAt n) {ds s r s'} (h : toLibDecls n ds s = (r, s'))
+    (ha : ∀ a ∈ ds, a.ratOk = true)
+    (hs : SynEnv.RatOK s) : SynEnv.RatOK s' ∧ ∀ xs, r = .ok xs → LibDecl.okList xs = true := ih.decls _ _ _ _ h ha hs
+theorem OKAt.decl' {n} (ih : OKAt n) {d s r s'} (h : toLibDecl n d s = (r, s')) (hd : d.ratOk = true)
+    (hs : SynEnv.RatOK s) : SynEnv.RatOK s' ∧ ∀ x, r = .ok x → x.ok = true := ih.decl _ _ _ _ h hd hs
+theorem OKAt.stmts' {n} (ih : OKAt n) {ds s r s'} (h : toStatements n ds s = (r, s'))
+    (ha : ∀ a ∈ ds, a.ratOk = true)
+    (hs : SynEnv.RatOK s) : SynEnv.RatOK s' ∧ ∀ xs, r = .ok xs → Statement.okList xs = true := ih.stmts _ _ _ _ h ha hs
+
+theorem inChild_fw {α} {m : XM α} {s r s'} (h : inChild m s = (r, s')) :
+    ∃ s1, m ([] :: s) = (r, s1) ∧ (s1 = [] ∧ s' = [] ∨ ∃ sc, s1 = sc :: s') := by
+  unfold inChild at h
+  generalize m ([] :: s) = x at h
+  obtain ⟨r1, s1⟩ := x
+  cases s1 with
+  | nil => simp only [Prod.mk.injEq] at h; exact ⟨[], by rw [h.1], .inl ⟨rfl, h.2.symm⟩⟩
+  | cons sc t => simp only [Prod.mk.injEq] at h; exact ⟨sc :: t, by rw [h.1], .inr ⟨sc, by rw [h.2]⟩⟩
+
+theorem SynEnv.ratOK_nil : SynEnv.RatOK [] := by intro sc h; cases h
+
+section
+variable {n : Nat} (ih : OKAt n)
+include ih
+
+theorem ok_expr : ∀ d s r s', toExpr (n+1) d s = (r, s') → d.ratOk = true → SynEnv.RatOK s →
+    SynEnv.RatOK s' ∧ ∀ e, r = .ok e → e.ok = true := by
+  intro d s r s' h hd hs
+  rw [toExpr] at h
+  simp only [bind_def', pure_def', fail] at h
+  have := ih.stmt
+  repeat' split at h
+  all_goals try simp only [pure_def', fail, Prod.mk.injEq] at h
+  all_goals grind [Statement.ok]
+
+theorem ok_stmt : ∀ d s r s', toStatement (n+1) d s = (r, s') → d.ratOk = true → SynEnv.RatOK s →
+    SynEnv.RatOK s' ∧ ∀ st, r = .ok st → st.ok = true := by
+  intro d s r s' h hd hs
+  unfold toStatement at h
+  simp only [bind_def', pure_def', fail, lift, getEnv, defineSyntax] at h
+  split at h
+  · simp only [pure_def', Prod.mk.injEq] at h; grind [Statement.ok, Expr.ok, Datum.ratOk]
+  · simp only [pure_def', Prod.mk.injEq] at h; grind [Statement.ok, Expr.ok, Datum.ratOk]
+  · simp only [pure_def', Prod.mk.injEq] at h; grind [Statement.ok, Expr.ok, Datum.ratOk]
+  · simp only [fail, Prod.mk.injEq] at h; grind
+  · rename_i car cdr loc
+    simp only [bind_def', lift] at h
+    cases hp : Macro.popProper (car.pair cdr loc) with
+    | error e => rw [hp] at h; simp only [Prod.mk.injEq] at h; grind
+    | ok o =>
+      rw [hp] at h
+      cases o with
+      | none => simp only [fail, Prod.mk.injEq] at h; grind
+      | some v =>
+        obtain ⟨first, rest⟩ := v
+        simp only at h
+        have hfr := Macro.popProper_ratOk hp hd
+        have hf := hfr.1
+        have hel := Datum.elems_ratOk rest hfr.2
+        have hrl : (Datum.withLoc (car.pair cdr loc).loc rest).ratOk = true := by rw [Datum.ratOk_withLoc]; exact hfr.2
+        generalize rest.elems = args at h hel
+        clear hp hfr
+        repeat' (first | split at h | simp only [bind_def', pure_def', fail, lift, getEnv, defineSyntax, need_eq, identOf, Prod.mk.injEq] at h | (generalize hg : SynEnv.get? _ _ = o at h; cases o <;> simp only at h))
+        all_goals try (have hval := SynEnv.ratOK_get hs hg)
+        all_goals grind [transform_fw, OKAt.stmt', OKAt.expr', OKAt.call', OKAt.defn', OKAt.lam', OKAt.lib', Statement.ok, Expr.ok, Def.ok, ratOk_of_head?, ratOk_of_drop_head?,
+          mapM_importSet_env, Macro.toRules_ratOk, SynEnv.ratOK_define, SynEnv.ratOK_get, Macro.transform_ratOk]
+
+theorem ok_call : ∀ first args loc s r s', toCall (n+1) first args loc s = (r, s') → first.ratOk = true →
+    (∀ a ∈ args, a.ratOk = true) → SynEnv.RatOK s → SynEnv.RatOK s' ∧ ∀ e, r = .ok e → e.ok = true := by
+  intro first args loc s r s' h hf ha hs
+  rw [toCall] at h
+  repeat' (first | split at h | simp only [bind_def', pure_def', fail, Prod.mk.injEq] at h)
+  all_goals grind [OKAt.expr', OKAt.exprs', Expr.ok]
+
+theorem ok_exprs : ∀ ds s r s', toExprs (n+1) ds s = (r, s') → (∀ a ∈ ds, a.ratOk = true) → SynEnv.RatOK s →
+    SynEnv.RatOK s' ∧ ∀ es, r = .ok es → Expr.okList es = true := by
+  intro ds s r s' h ha hs
+  cases ds <;> rw [toExprs] at h
+  · simp only [pure_def', Prod.mk.injEq] at h; grind [Expr.okList]
+  · rename_i d ds
+    have hd : d.ratOk = true := ha d (by simp)
+    have hds : ∀ a ∈ ds, a.ratOk = true := fun a h => ha a (by simp [h])
+    repeat' (first | split at h | simp only [bind_def', pure_def', fail, Prod.mk.injEq] at h)
+    all_goals grind [OKAt.expr', OKAt.exprs', Expr.okList]
+
+theorem ok_defn : ∀ args s r s', toDefinition (n+1) args s = (r, s') → (∀ a ∈ args, a.ratOk = true) → SynEnv.RatOK s →
+    SynEnv.RatOK s' ∧ ∀ p, r = .ok p → p.2.ok = true := by
+  intro args s r s' h ha hs
+  rw [toDefinition] at h
+  have hdr := ratOk_of_drop ha 1
+  repeat' (first | split at h | simp only [bind_def', pure_def', fail, lift, need_eq, identOf, Prod.mk.injEq] at h)
+  all_goals grind [OKAt.expr', OKAt.body', Expr.ok, Lambda.ok, Def.okList, Expr.okList, ratOk_of_head?, ratOk_of_drop_head?,
+    toFormals_env]
+
+theorem ok_lam : ∀ args s r s', toLambda (n+1) args s = (r, s') → (∀ a ∈ args, a.ratOk = true) → SynEnv.RatOK s →
+    SynEnv.RatOK s' ∧ ∀ l, r = .ok l → l.ok = true := by
+  intro args s r s' h ha hs
+  rw [toLambda] at h
+  have hdr := ratOk_of_drop ha 1
+  have hpush := SynEnv.ratOK_push hs
+  repeat' (first | split at h | simp only [bind_def', pure_def', fail, lift, need_eq, Prod.mk.injEq] at h)
+  all_goals grind [inChild_fw, OKAt.body', Lambda.ok, Def.okList, Expr.okList, toFormals_env, SynEnv.ratOK_tail, SynEnv.ratOK_nil]
+
+
+theorem ok_body : ∀ ds defs exprs s r s', toBody (n+1) ds defs exprs s = (r, s') → (∀ a ∈ ds, a.ratOk = true) →
+    Def.okList defs = true → Expr.okList exprs = true → SynEnv.RatOK s →
+    SynEnv.RatOK s' ∧ ∀ p, r = .ok p → Def.okList p.1 = true ∧ Expr.okList p.2 = true ∧ p.2.isEmpty = false := by
+  intro ds defs exprs s r s' h ha hdf hex hs
+  cases ds <;> rw [toBody] at h
+  · have h1 : ∀ (l : List Def), Def.okList l = true → Def.okList l.reverse = true := by
+      intro l hl
+      have key : ∀ (l acc : List Def), Def.okList l = true → Def.okList acc = true →
+          Def.okList (l.reverseAux acc) = true := by
+        intro l
+        induction l with
+        | nil => intro acc _ h; exact h
+        | cons x xs ih =>
+          intro acc hx hacc
+          simp only [Def.okList, Bool.and_eq_true] at hx
+          exact ih (x :: acc) hx.2 (by simp [Def.okList, hx.1, hacc])
+      exact key l [] hl rfl
+    have h2 : ∀ (l : List Expr), Expr.okList l = true → Expr.okList l.reverse = true := by
+      intro l hl
+      have key : ∀ (l acc : List Expr), Expr.okList l = true → Expr.okList acc = true →
+          Expr.okList (l.reverseAux acc) = true := by
+        intro l
+        induction l with
+        | nil => intro acc _ h; exact h
+        | cons x xs ih =>
+          intro acc hx hacc
+          simp only [Expr.okList, Bool.and_eq_true] at hx
+          exact ih (x :: acc) hx.2 (by simp [Expr.okList, hx.1, hacc])
+      exact key l [] hl rfl
+    split at h
+    · simp only [fail, Prod.mk.injEq] at h; grind
+    · rename_i hne
+      simp only [pure_def', Prod.mk.injEq] at h
+      obtain ⟨rfl, rfl⟩ := h
+      refine ⟨hs, fun p hp => ?_⟩
+      cases hp
+      refine ⟨h1 _ hdf, h2 _ hex, ?_⟩
+      cases exprs <;> simp_all
+  · rename_i d ds
+    have hd : d.ratOk = true := ha d (by simp)
+    have hds : ∀ a ∈ ds, a.ratOk = true := fun a h => ha a (by simp [h])
+    repeat' (first | split at h | simp only [bind_def', pure_def', fail, Prod.mk.injEq] at h)
+    all_goals grind [OKAt.stmt', OKAt.body', Expr.okList, Def.okList, Statement.ok]
+
+theorem ok_lib : ∀ args loc s r s', toLibrary (n+1) args loc s = (r, s') → (∀ a ∈ args, a.ratOk = true) → SynEnv.RatOK s →
+    SynEnv.RatOK s' ∧ ∀ st, r = .ok st → st.ok = true := by
+  intro args loc s r s' h ha hs
+  rw [toLibrary] at h
+  have hdr := ratOk_of_drop ha 1
+  repeat' (first | split at h | simp only [bind_def', pure_def', fail, lift, need_eq, expectList, Prod.mk.injEq] at h)
+  all_goals grind [OKAt.decls', Statement.ok, toLibName_env]
+
+theorem ok_decls : ∀ ds s r s', toLibDecls (n+1) ds s = (r, s') → (∀ a ∈ ds, a.ratOk = true) → SynEnv.RatOK s →
+    SynEnv.RatOK s' ∧ ∀ xs, r = .ok xs → LibDecl.okList xs = true := by
+  intro ds s r s' h ha hs
+  cases ds <;> rw [toLibDecls] at h
+  · simp only [pure_def', Prod.mk.injEq] at h; grind [LibDecl.okList]
+  · rename_i d ds
+    have hd : d.ratOk = true := ha d (by simp)
+    have hds : ∀ a ∈ ds, a.ratOk = true := fun a h => ha a (by simp [h])
+    repeat' (first | split at h | simp only [bind_def', pure_def', fail, Prod.mk.injEq] at h)
+    all_goals grind [OKAt.decl', OKAt.decls', LibDecl.okList]
+
+theorem ok_decl : ∀ d s r s', toLibDecl (n+1) d s = (r, s') → d.ratOk = true → SynEnv.RatOK s →
+    SynEnv.RatOK s' ∧ ∀ x, r = .ok x → x.ok = true := by
+  intro d s r s' h hd hs
+  rw [toLibDecl] at h
+  simp only [bind_def', expectList, lift] at h
+  cases he : Macro.expectList d with
+  | error e => rw [he] at h; simp only [Prod.mk.injEq] at h; grind
+  | ok d' =>
+    rw [he] at h
+    have := Macro.expectList_ok he; subst this
+    simp only at h
+    have hel := Datum.elems_ratOk d' hd
+    have hdr := ratOk_of_drop hel 1
+    generalize d'.elems = es at h hel hdr
+    repeat' (first | split at h | simp only [bind_def', pure_def', fail, lift, need_eq, Prod.mk.injEq] at h)
+    all_goals grind [need_fw, OKAt.stmts', LibDecl.ok, mapM_importSet_env, mapM_exportSpec_env, ratOk_of_head?]
+
+theorem ok_stmts : ∀ ds s r s', toStatements (n+1) ds s = (r, s') → (∀ a ∈ ds, a.ratOk = true) → SynEnv.RatOK s →
+    SynEnv.RatOK s' ∧ ∀ xs, r = .ok xs → Statement.okList xs = true := by
+  intro ds s r s' h ha hs
+  cases ds <;> rw [toStatements] at h
+  · simp only [pure_def', Prod.mk.injEq] at h; grind [Statement.okList]
+  · rename_i d ds
+    have hd : d.ratOk = true := ha d (by simp)
+    have hds : ∀ a ∈ ds, a.ratOk = true := fun a h => ha a (by simp [h])
+    repeat' (first | split at h | simp only [bind_def', pure_def', fail, Prod.mk.injEq] at h)
+    all_goals grind [OKAt.stmt', OKAt.stmts', Statement.okList]
+
+end
+
+theorem okAt : ∀ n, OKAt n
+  | 0 => by
+    constructor
+    · intro d s r s' h _ hs; rw [toStatement] at h; simp only [fail, Prod.mk.injEq] at h; grind
+    · intro d s r s' h _ hs; rw [toExpr] at h; simp only [fail, Prod.mk.injEq] at h; grind
+    · intro f a l s r s' h _ _ hs; rw [toCall] at h; simp only [fail, Prod.mk.injEq] at h; grind
+    · intro d s r s' h _ hs; rw [toExprs] at h; simp only [fail, Prod.mk.injEq] at h; grind
+    · intro d s r s' h _ hs; rw [toDefinition] at h; simp only [fail, Prod.mk.injEq] at h; grind
+    · intro d s r s' h _ hs; rw [toLambda] at h; simp only [fail, Prod.mk.injEq] at h; grind
+    · intro d df ex s r s' h _ _ _ hs; rw [toBody] at h; simp only [fail, Prod.mk.injEq] at h; grind
+    · intro a l s r s' h _ hs; rw [toLibrary] at h; simp only [fail, Prod.mk.injEq] at h; grind
+    · intro d s r s' h _ hs; rw [toLibDecls] at h; simp only [fail, Prod.mk.injEq] at h; grind
+    · intro d s r s' h _ hs; rw [toLibDecl] at h; simp only [fail, Prod.mk.injEq] at h; grind
+    · intro d s r s' h _ hs; rw [toStatements] at h; simp only [fail, Prod.mk.injEq] at h; grind
+  | n+1 =>
+    have ih := okAt n
+    ⟨ok_stmt ih, ok_expr ih, ok_call ih, ok_exprs ih, ok_defn ih, ok_lam ih, ok_body ih, ok_lib ih,
+      ok_decls ih, ok_decl ih, ok_stmts ih⟩
+
+/-- `toStatement` on `n/0`-free data in an `n/0`-free syntax environment: the environment stays
+`n/0`-free and the statement produced is `ok` (non-empty bodies, `n/0`-free literals) -/
+theorem toStatement_ok {fuel : Nat} {d : Datum} {env : SynEnv} (hd : d.ratOk = true) (he : SynEnv.RatOK env) :
+    SynEnv.RatOK (toStatement fuel d env).2 ∧ ∀ st, (toStatement fuel d env).1 = .ok st → st.ok = true :=
+  (okAt fuel).stmt d env _ _ rfl hd he
+
+end Xform
 end Ruschm
